@@ -326,6 +326,6 @@ impl Property for C16 {
         Verdict::Pass
     }
     fn floors(&self, _tier: Tier) -> Vec<(&'static str, f64)> {
-        vec![("content:astral", 0.1), ("args:huge", 0.05), ("args:offset-beyond", 0.1), ("args:count-past-end", 0.1), ("op:split_text", 0.03)]
+        vec![("content:astral", 0.1), ("args:huge", 0.05), ("args:offset-beyond", 0.06), ("args:count-past-end", 0.06), ("op:split_text", 0.03)]
     }
 }
